@@ -109,6 +109,15 @@ def kernel_h_pos_rect_sum(x, w, delta_xi):
 
 
 @hint(KERNEL, before='return res_y if s is None')
+def kernel_h_yhat(x, y, w, delta_xi, y_hat, delta_p, integral_value, integral_method):
+    """multiplicative form of the definition of y_hat (no division): y_hat * Sum(profile terms) = k * (target - current)"""
+    return (delta_p == integral_value - total(x, y, integral_method)
+            and y_hat * sum_range(0, len(x) - 1, lambda i: ((w[i + 1] + w[i]) * delta_xi[i]) if integral_method == 'trapezoid'
+                                  else (w[i] * delta_xi[i]))
+            == ((2 * delta_p) if integral_method == 'trapezoid' else delta_p))
+
+
+@hint(KERNEL, before='return res_y if s is None')
 def kernel_h_lin(x, y, w, delta_xi, y_hat, res_y, integral_method):
     """Sum rule(x, y + yhat*w) = Sum rule(x, y) + c * Sum rule(x, w)   (c = yhat/2 for the trapezoid rule, whose
     profile terms are stored without the factor 1/2)"""
